@@ -2,6 +2,7 @@ package main
 
 import (
 	"bytes"
+	"crypto/sha256"
 	"errors"
 	"fmt"
 	"io"
@@ -273,7 +274,18 @@ func catalogue() []call {
 func buildCatalogue() {
 	add := func(name, kind string, unordered, heavy bool, fn func(keep func(string, func() []byte)) result) {
 		cat = append(cat, call{name: name, kind: kind, unordered: unordered, heavy: heavy,
-			fn: func(keep func(string, func() []byte)) result { return protect(func() result { return fn(keep) }) }})
+			fn: func(keep func(string, func() []byte)) result {
+				r := protect(func() result { return fn(keep) })
+				if unordered && r.Err == "" {
+					r.Out = sortMembers(r.Out) // member order of maps is unspecified without Deterministic
+				}
+				if len(r.Out) > 2048 {
+					// long results are compared by digest (they travel from the golden processes as JSON)
+					sum := sha256.Sum256([]byte(r.Out))
+					r.Out = fmt.Sprintf("%s…#%d:%x", r.Out[:64], len(r.Out), sum[:12])
+				}
+				return r
+			}})
 	}
 	det := json.Deterministic(true)
 	type optset struct {
@@ -330,7 +342,9 @@ func buildCatalogue() {
 		{"text-panic", func() any { return T{X: "panic"} }, false},
 		{"text-error", func() any { return []TX{"a", "err"} }, false},
 		{"text-keys", func() any { return map[TX]int{"z": 1, "y": 2, "x": 3} }, false},
-		{"W1", func() any { return W1{Name: "n", Int: 42, Any: map[string]any{"k": []any{1.0, "s"}}, Emb: Emb{1, 2}, Ptr: &W1{Name: "inner"}} }, false},
+		{"W1", func() any {
+			return W1{Name: "n", Int: 42, Any: map[string]any{"k": []any{1.0, "s"}}, Emb: Emb{1, 2}, Ptr: &W1{Name: "inner"}}
+		}, false},
 		{"ptr-nil", func() any { return struct{ P *int }{nil} }, false},
 		{"ptr-set", func() any { return struct{ P *int }{&one} }, false},
 		{"big-64k", func() any { return big(1500) }, false},
@@ -436,6 +450,8 @@ func buildCatalogue() {
 		{"strings", `["a","é","😀","😀","` + strings.Repeat("long", 50) + `","a","a"]`, false},
 		{"invalid-utf8", "{\"s\":\"\xff\"}", false},
 		{"numbers", `[0,-0,1e400,1.5,123456789012345678901234567890,1e-400]`, false},
+		{"range-error", `{"a":300000000000000000000,"s":"x"}`, false},
+		{"fraction-into-int", `{"l":[{"a":1},{"a":17.25}],"f":"2.5"}`, false},
 		{"big-64k", bigDoc(1800), false},
 		{"big-1m", bigDoc(30000), true},
 		{"deep-1500", deep(1500), true},
@@ -480,6 +496,7 @@ func buildCatalogue() {
 					err := json.Unmarshal(in, v, uo.o...)
 					d := dump(v)
 					keepDecoded(keep, v)
+					keepError(keep, err)
 					scribble(in) // the caller may reuse its input buffer
 					return result{d, errClass(err)}
 				})
@@ -489,11 +506,13 @@ func buildCatalogue() {
 				add(name+"/UnmarshalRead-opaque", "UnmarshalRead-op", false, ui.heavy, func(keep func(string, func() []byte)) result {
 					v := ut.mk()
 					err := json.UnmarshalRead(opaqueReader{strings.NewReader(ui.in)}, v, uo.o...)
+					keepError(keep, err)
 					return result{dump(v), errClass(err)}
 				})
 				add(name+"/UnmarshalRead-bytes.Buffer", "UnmarshalRead-bb", false, ui.heavy, func(keep func(string, func() []byte)) result {
 					v := ut.mk()
 					err := json.UnmarshalRead(bytes.NewBufferString(ui.in), v, uo.o...)
+					keepError(keep, err)
 					return result{dump(v), errClass(err)}
 				})
 			}
@@ -663,6 +682,27 @@ func buildCatalogue() {
 			return result{string(b), errClass(err)}
 		})
 	}
+	// one options array shared by several calls that pass different prefixes of it (variadic arguments alias it)
+	sharedOpts := []json.Options{det, jsontext.Multiline(true), jsontext.WithIndent(" "), json.FormatNilSliceAsNull(true), nil, nil}[:4]
+	for k := 0; k <= 4; k++ {
+		k := k
+		add(fmt.Sprintf("sharedopts/marshal-prefix-%d", k), "Marshal-sharedopts", k == 0 /* no Deterministic yet */, false, func(keep func(string, func() []byte)) result {
+			b, err := json.Marshal(struct {
+				A []int
+				M map[string]any
+			}{nil, map[string]any{"b": 1.0, "a": []any{}}}, sharedOpts[:k]...)
+			return result{string(b), errClass(err)}
+		})
+	}
+	sharedUOpts := []json.Options{json.RejectUnknownMembers(true), json.MatchCaseInsensitiveNames(true), jsontext.AllowDuplicateNames(true), nil, nil}[:3]
+	for k := 0; k <= 3; k++ {
+		k := k
+		add(fmt.Sprintf("sharedopts/unmarshal-prefix-%d", k), "Unmarshal-sharedopts", false, false, func(keep func(string, func() []byte)) result {
+			var v struct{ Name int }
+			err := json.Unmarshal([]byte(`{"name":1,"NAME":2,"other":3}`), &v, sharedUOpts[:k]...)
+			return result{dump(v), errClass(err)}
+		})
+	}
 	// Marshalers/Unmarshalers option values shared between calls (per-Marshalers cache)
 	sharedM := json.JoinMarshalers(
 		json.MarshalFunc(func(v int) ([]byte, error) { return []byte(fmt.Sprintf(`"i%d"`, v)), nil }),
@@ -679,6 +719,19 @@ func buildCatalogue() {
 			b, err := json.Marshal(v, det, json.WithMarshalers(sharedM))
 			return result{string(b), errClass(err)}
 		})
+	}
+}
+
+// keepError registers what an error value hands back (the offending JSON value and the message)
+// for the stability check: an error is part of what a call returns.
+func keepError(keep func(string, func() []byte), err error) {
+	var se *json.SemanticError
+	if errors.As(err, &se) && len(se.JSONValue) > 0 {
+		keep("SemanticError.JSONValue", func() []byte { return se.JSONValue })
+	}
+	var sy *jsontext.SyntacticError
+	if errors.As(err, &sy) || se != nil {
+		keep("error-text", func() []byte { return []byte(err.Error()) })
 	}
 }
 
